@@ -377,18 +377,7 @@ def run(prog: Program, res: Result) -> None:  # noqa: PLR0912, PLR0915
                                 res.fail("C12.R5", file=nc.file, line=js.lineno, qualname=f"{nc.name}.__str__", construct=f"{nc.name}: {closer} without wc[1]", message=f"{nc.name}.__str__ prints `{closer}` without the token's right whitespace-control marker", what=what)
         # each opener's marker and the next closer's marker are the left and right marker of the same token
         for js in [n for n in ast.walk(m.node) if isinstance(n, ast.JoinedStr)]:
-            seq: list[tuple[str, str, int]] = []
             vals = js.values
-            for i, v in enumerate(vals):
-                if isinstance(v, ast.Constant) and isinstance(v.value, str):
-                    if v.value.endswith(("{%", "{{")) and i + 1 < len(vals) and isinstance(vals[i + 1], ast.FormattedValue):
-                        mm = re.fullmatch(r"(.+)\.wc\[(-?\d)\]", norm(vals[i + 1].value))
-                        if mm:
-                            seq.append(("open", mm.group(1), int(mm.group(2))))
-                    if (v.value.lstrip().startswith(("%}", "}}")) or v.value in ("%}", "}}")) and i > 0 and isinstance(vals[i - 1], ast.FormattedValue):
-                        mm = re.fullmatch(r"(.+)\.wc\[(-?\d)\]", norm(vals[i - 1].value))
-                        if mm:
-                            seq.insert(len(seq), ("close", mm.group(1), int(mm.group(2))))
             # constants can hold a closer and the next opener at once ("%}…{%"): order within the f-string is close-then-open
             seq_sorted: list[tuple[str, str, int]] = []
             for i, v in enumerate(vals):
